@@ -156,9 +156,18 @@ type assignEntry struct {
 	whole  bool // prefix names a whole type: match the key itself or any of its fields
 	off    *Term // slice elements: only [off, off+n) of the backing array may change
 	n      *Term
+	only   []string // exact heap keys (ghost streams: only the mutable components)
 }
 
 func (a assignEntry) covers(key string) bool {
+	if len(a.only) > 0 {
+		for _, k := range a.only {
+			if k == key {
+				return true
+			}
+		}
+		return false
+	}
 	if a.whole {
 		return key == a.prefix || strings.HasPrefix(key, a.prefix+".")
 	}
@@ -205,7 +214,13 @@ func (e *Exec) resolveAssign(st *State, fn *ssa.Function, params map[string]Valu
 		if fam == "wr" {
 			fam = e.wrFamily(val)
 		}
-		return assignEntry{prefix: "ghost:" + fam + ".", ref: streamRef(val), text: path}
+		// a call can move a read stream's position and extend a write stream; what the stream holds ahead of the
+		// position, its length, the point where a writer starts failing and the terminal errors never change
+		only := []string{"ghost:" + fam + ".pos"}
+		if fam != "rd" {
+			only = []string{"ghost:" + fam + ".data", "ghost:" + fam + ".len"}
+		}
+		return assignEntry{prefix: "ghost:" + fam + ".", ref: streamRef(val), text: path, only: only}
 	}
 	elems := false
 	if strings.HasSuffix(path, "[*]") {
@@ -402,7 +417,13 @@ func (e *Exec) callContract(st *State, fr *Frame, sp *FnSpec, fn *ssa.Function, 
 		ae := e.resolveAssign(pre, fn, params, a)
 		// the callee's frame must be inside the caller's
 		if ae.ref != nil {
-			e.frameCheck(st, fr, Loc{Key: ae.prefix, Idx: []*Term{ae.ref}}, pos)
+			if len(ae.only) > 0 {
+				for _, k := range ae.only {
+					e.frameCheck(st, fr, Loc{Key: k, Idx: []*Term{ae.ref}}, pos)
+				}
+			} else {
+				e.frameCheck(st, fr, Loc{Key: ae.prefix, Idx: []*Term{ae.ref}}, pos)
+			}
 		}
 		e.havocAssign(st, ae)
 	}
